@@ -4,6 +4,7 @@ import (
 	"fmt"
 	"go/token"
 	"go/types"
+	"strings"
 
 	"golang.org/x/tools/go/ssa"
 )
@@ -81,6 +82,7 @@ func (w *W) doCall(f *frame, c *ssa.CallCommon, fv Value, args []Value, key int,
 				acc(a.g, r, og, False, nil)
 				continue
 			}
+			w.checkEncodable(m, pos)
 			nf := w.newFrame(t, FAlt{g: True, fn: m}, f, mkKey(key, i, -2, 0))
 			nf.recTarget = recTarget
 			r, og, pG, pV := w.execFunc(t, nf, cargs, ag)
@@ -113,6 +115,7 @@ func (w *W) doCall(f *frame, c *ssa.CallCommon, fv Value, args []Value, key int,
 				acc(a.g, r, og, False, nil)
 				continue
 			}
+			w.checkEncodable(a.fn, pos)
 			nf := w.newFrame(t, a, f, mkKey(key, i, -2, 0))
 			nf.recTarget = recTarget
 			r, og, pG, pV := w.execFunc(t, nf, args, ag)
@@ -430,4 +433,26 @@ func (w *W) copyBuiltin(f *frame, c *ssa.CallCommon, d *Slice, sv Value, key int
 		return nil
 	}})
 	return n, ng
+}
+
+// stdlib packages whose (plain Go) bodies are encoded from their SSA; anything else outside the module must be
+// an intrinsic, otherwise the run stops instead of wandering into library internals.
+var encodablePkgs = map[string]bool{"container/heap": true, "slices": true, "cmp": true, "sort": true, "math": true, "math/bits": true, "errors": true}
+
+func (w *W) checkEncodable(fn *ssa.Function, pos token.Pos) {
+	pkg := fn.Pkg
+	if pkg == nil && fn.Origin() != nil {
+		pkg = fn.Origin().Pkg
+	}
+	if pkg == nil {
+		if fn.Parent() != nil {
+			w.checkEncodable(fn.Parent(), pos)
+		}
+		return
+	}
+	p := pkg.Pkg.Path()
+	if strings.HasPrefix(p, repoModule) || encodablePkgs[p] {
+		return
+	}
+	panic("cannot encode: call to " + fn.String() + " at " + w.pos(pos) + " (no model for this standard-library function)")
 }
